@@ -358,6 +358,24 @@ pub fn args_for(rng: &mut Rng, kind: usize, t: Tup, other: Tup) -> Vec<i64> {
     }
     "LD.next" | "LD.step" => vec![t.y, t.m, t.d, small_n(rng)],
     "LD.hour" => vec![t.y, t.m, t.d, rng.range(0, 12)],
+    "EC.mk" => vec![rng.range(0, 59), rng.range(0, 59), rng.range(0, 59), rng.range(0, 59), t.y],
+    "EC.get" => vec![rng.range(0, 59), rng.range(0, 59), rng.range(0, 59), rng.range(0, 59), t.y, rng.range(0, 65)],
+    "EC.cmp" => vec![rng.range(0, 59), rng.range(0, 59), rng.range(0, 59), rng.range(0, 59), t.y, rng.range(0, 59), rng.range(0, 59), rng.range(0, 59), rng.range(0, 59), other.y],
+    "CLH.new" => vec![t.y, am, t.d.min(28).max(1), t.h, t.mi, t.s, rng.range(0, 1)],
+    "CLH.get" => vec![t.y, am, t.d.min(28).max(1), t.h, t.mi, t.s, rng.range(0, 1), rng.range(0, 5)],
+    "CLH.cmp" => vec![t.y, am, t.d.min(28).max(1), t.h, t.mi, t.s, rng.range(0, 1), other.y, other.m.abs().max(1), other.d.min(28).max(1), other.h, other.mi, other.s, rng.range(0, 1)],
+    "DF.new" | "FT.new" => vec![t.y, am, t.d.min(28).max(1), t.h, t.mi, t.s, rng.range(0, 1), rng.range(-1, 9)],
+    "DF.get" | "FT.get" => vec![t.y, am, t.d.min(28).max(1), t.h, t.mi, t.s, rng.range(0, 1), rng.range(-1, 9), rng.range(0, 5)],
+    "DF.step" | "FT.step" => vec![t.y, am, t.d.min(28).max(1), t.h, t.mi, t.s, rng.range(0, 1), rng.range(-1, 9), rng.range(-3, 6)],
+    "DF.cmp" | "FT.cmp" => vec![t.y, am, t.d.min(28).max(1), t.h, t.mi, t.s, rng.range(0, 1), rng.range(0, 3), t.y, am, t.d.min(28).max(1), t.h, t.mi, t.s, rng.range(0, 1), rng.range(0, 3)],
+    "SCM.new" => vec![t.y, rng.range(-2, 14)],
+    "SCM.get" => vec![t.y, rng.range(0, 11), rng.range(0, 5)],
+    "SCM.step" => vec![t.y, rng.range(0, 11), rng.range(-14, 14)],
+    "SCM.cmp" => vec![t.y, rng.range(0, 11), other.y, rng.range(0, 11)],
+    "LF.new" => vec![t.y, rng.range(0, 13)],
+    "LF.get" => vec![t.y, rng.range(0, 12), rng.range(0, 2)],
+    "LF.step" => vec![t.y, rng.range(0, 12), rng.range(-15, 15)],
+    "LF.cmp" => vec![t.y, rng.range(0, 12), other.y, rng.range(0, 12)],
     "LD.cmp" => vec![t.y, t.m, t.d, other.y, other.m, other.d],
     "LH.cmp" => vec![t.y, t.m, t.d, t.h, t.mi, t.s, other.y, other.m, other.d, other.h, other.mi, other.s],
     "SCD.cmp" => vec![t.y, am, t.d.min(28).max(1), other.y, other.m.abs().max(1), other.d.min(28).max(1)],
@@ -619,7 +637,7 @@ pub fn gen_run(rng: &mut Rng, sw: &Swarm, pool: &[Query], leap: &Leap, reset: bo
       continue;
     }
     // handle ops: values kept in slots, queried, stepped, cloned, derived from one another
-    let hkinds: Vec<usize> = [(0usize, FAM_LD), (1, FAM_LH), (2, FAM_SC), (3, FAM_SC), (4, FAM_LW), (5, FAM_SD)].iter().filter(|(_, f)| sw.fam[*f]).map(|(k, _)| *k).collect();
+    let hkinds: Vec<usize> = [(0usize, FAM_LD), (1, FAM_LH), (2, FAM_SC), (3, FAM_SC), (4, FAM_LW), (5, FAM_SD), (6, FAM_EC), (7, FAM_EC), (8, FAM_EC), (9, FAM_EC), (10, FAM_SC), (11, FAM_FE)].iter().filter(|(_, f)| sw.fam[*f]).map(|(k, _)| *k).collect();
     if !hkinds.is_empty() && rng.below(100) < sw.handle_pct {
       let used = slots_used[t];
       let filled: Vec<usize> = (0..SLOTS).filter(|s| used[*s]).collect();
@@ -679,6 +697,35 @@ pub fn gen_run(rng: &mut Rng, sw: &Swarm, pool: &[Query], leap: &Leap, reset: bo
         let f = *rng.pick(&recent_tuples);
         let (sa, sb) = (rng.below(SLOTS as u64) as usize, rng.below(SLOTS as u64) as usize);
         let cands: Vec<usize> = hkinds.iter().cloned().filter(|k| [0usize, 1, 2, 4].contains(k)).collect();
+        if sa != sb && sw.fam[FAM_EC] && sw.heavy_ok && rng.chance(1, 3) {
+          // eight characters taken from an hour (or a child limit), asked for the instants that
+          // carry them in a wide year range and then in a range nested in it
+          let am = f.m.abs().max(1);
+          let sd = f.d.min(28).max(1);
+          let from_cl = rng.chance(1, 3);
+          let (kind, args) = if from_cl { (7usize, vec![f.y, am, sd, f.h, f.mi, f.s, rng.range(0, 1)]) } else { (3usize, vec![f.y, am, sd, *rng.pick(&[f.h, 0, 23]), f.mi, f.s]) };
+          let wide = 2 + 8 * rng.range(4, 7) + rng.range(5, 7);
+          let narrow = 2 + 8 * rng.range(0, 3) + rng.range(0, 4);
+          let seq = vec![
+            Op::HNew { slot: sa, kind, args },
+            Op::HDay { from: sa, to: sb, variant: 2 },
+            Op::HGet { slot: sb, g: wide },
+            Op::HGet { slot: sb, g: narrow },
+            Op::HGet { slot: sb, g: 2 + 8 * rng.range(0, 7) + rng.range(0, 7) },
+          ];
+          slots_used[t][sa] = true;
+          slots_used[t][sb] = true;
+          slot_kind[t][sa] = kind;
+          slot_kind[t][sb] = 6;
+          slot_tup[t][sa] = f;
+          slot_tup[t][sb] = f;
+          for op in seq {
+            threads[t].push(op);
+            gs.handle_ops += 1;
+            emitted += 1;
+          }
+          continue;
+        }
         if sa != sb && !cands.is_empty() {
           let kind = *rng.pick(&cands);
           let am = f.m.abs().max(1);
@@ -744,7 +791,12 @@ pub fn gen_run(rng: &mut Rng, sw: &Swarm, pool: &[Query], leap: &Leap, reset: bo
           2 => vec![base.y, am, sd],
           3 => vec![base.y, am, sd, base.h, base.mi, base.s],
           4 => vec![base.y, base.m, rng.range(0, 4), rng.range(0, 6)],
-          _ => vec![base.y, rng.range(-2, 26)],
+          5 => vec![base.y, rng.range(-2, 26)],
+          6 => vec![rng.range(0, 59), rng.range(0, 59), rng.range(0, 59), rng.range(0, 59), base.y],
+          7 => vec![base.y, am, sd, base.h, base.mi, base.s, rng.range(0, 1)],
+          8 | 9 => vec![base.y, am, sd, base.h, base.mi, base.s, rng.range(0, 1), rng.range(-1, 8)],
+          10 => vec![base.y, rng.range(-2, 14)],
+          _ => vec![base.y, rng.range(0, 12)],
         };
         Op::HNew { slot, kind, args }
       } else {
@@ -764,9 +816,35 @@ pub fn gen_run(rng: &mut Rng, sw: &Swarm, pool: &[Query], leap: &Leap, reset: bo
             slots_used[t][to] = true;
             match kind {
               1 => {
-                let variant = rng.below(2) as usize;
-                slot_kind[t][to] = if variant == 0 { 0 } else { 3 };
+                let variant = rng.below(3) as usize;
+                slot_kind[t][to] = [0, 3, 6][variant];
                 Op::HDay { from: slot, to, variant }
+              }
+              3 => {
+                slot_kind[t][to] = 6;
+                Op::HDay { from: slot, to, variant: 2 }
+              }
+              7 => {
+                let variant = rng.below(3) as usize;
+                slot_kind[t][to] = [8, 9, 6][variant];
+                Op::HDay { from: slot, to, variant }
+              }
+              8 => {
+                let variant = rng.below(2) as usize;
+                slot_kind[t][to] = [7, 9][variant];
+                Op::HDay { from: slot, to, variant }
+              }
+              9 => {
+                slot_kind[t][to] = 7;
+                Op::HDay { from: slot, to, variant: 0 }
+              }
+              10 => {
+                slot_kind[t][to] = 2;
+                Op::HDay { from: slot, to, variant: 1 }
+              }
+              11 => {
+                slot_kind[t][to] = 0;
+                Op::HDay { from: slot, to, variant: 0 }
               }
               4 => {
                 slot_kind[t][to] = 0;
@@ -907,21 +985,46 @@ pub fn gen_stress_run(rng: &mut Rng, leap: &Leap, reset: bool) -> RunScript {
   let era = *rng.pick(&[1u64, 2, 2, 2, 4, 4]);
   let base = gen_tuple(rng, era, leap, false);
   let other = gen_tuple(rng, era, leap, false);
-  // a cheap or medium query kind with at least one argument
+  // a cheap or medium query kind with at least one argument; kinds that take no lock of the
+  // seam (solar side, terms, festivals, holidays, tables) three times as often as the others,
+  // because those are the ones the baton scheduler can preempt least
+  let lock_free = |name: &str| -> bool { ["HOL.", "SF.", "TERM", "SD.new", "SD.next", "SD.sub", "SM.", "SY.", "SW", "SS", "NAME", "TABOO", "PROVIDER"].iter().any(|p| name.starts_with(p)) };
   let mut k = K_LM_FROM_YM;
-  for _ in 0..64 {
+  for _ in 0..200 {
     let c = rng.below(KINDS.len() as u64) as usize;
-    if KINDS[c].cost <= 1 && KINDS[c].arity >= 1 && KINDS[c].name != "CYCLE" && KINDS[c].name != "STAR" && KINDS[c].name != "JD" {
+    if KINDS[c].cost <= 1 && KINDS[c].arity >= 1 && KINDS[c].name != "CYCLE" && KINDS[c].name != "STAR" && KINDS[c].name != "JD" && (lock_free(KINDS[c].name) || rng.chance(1, 3)) {
       k = c;
       break;
     }
   }
+  // one run in six is "deep": a lock-free kind, sustained for hundreds of thousands of
+  // evaluations (narrow windows need volume, striped or per-thread structures need many live
+  // threads at once); the others are broad and shallow
+  let deep = rng.chance(1, 40);
+  if deep {
+    for _ in 0..200 {
+      let c = rng.below(KINDS.len() as u64) as usize;
+      if KINDS[c].cost == 0 && KINDS[c].arity >= 1 && lock_free(KINDS[c].name) {
+        k = c;
+        break;
+      }
+    }
+  }
   let q0 = Query::new(k, args_for(rng, k, base, other));
-  let nthreads = *rng.pick(&[2usize, 2, 3, 4]);
-  let reps: u64 = match KINDS[k].cost {
-    0 => rng.range(300, 1500) as u64,
-    _ => rng.range(60, 300) as u64,
+  // mostly a handful of threads; sometimes many (more live threads than a striped or per-thread
+  // structure has slots for), with shorter loops
+  let nthreads = *rng.pick(&[2usize, 2, 2, 2, 2, 2, 3, 3, 3, 4, 4, 4, 4, 8, 16, 64]);
+  // a fixed amount of work per run, shared by its threads
+  let total: i64 = match (deep, KINDS[k].cost) {
+    (true, _) => rng.range(100_000, 300_000),
+    (false, 0) => rng.range(2000, 8000),
+    _ => rng.range(300, 1200),
   };
+  let nthreads = if deep { *rng.pick(&[2usize, 4, 16, 64, 64]) } else { nthreads };
+  let reps: u64 = (total / nthreads as i64).max(12) as u64;
+  // one kind for all threads, or (one run in three) a kind of its own for every thread: a
+  // writer of one kind racing a reader of another
+  let mixed = rng.chance(1, 3);
   let mut threads: Vec<Vec<Op>> = Vec::new();
   for t in 0..nthreads {
     let mut a = q0.args.clone();
@@ -936,11 +1039,56 @@ pub fn gen_stress_run(rng: &mut Rng, leap: &Leap, reset: bool) -> RunScript {
         a[1] = ((a[1] - 1 + delta.abs() % 12) % 12) + 1;
       }
     }
-    let q = Query::new(k, a);
-    let mut ops = vec![Op::QRep { q: q.clone(), times: reps }];
-    if rng.chance(1, 2) {
-      // and once more after the others have been at it
-      ops.push(Op::QRep { q, times: reps / 2 + 1 });
+    let mut q = Query::new(k, a);
+    if mixed && t > 0 {
+      for _ in 0..64 {
+        let c = rng.below(KINDS.len() as u64) as usize;
+        if KINDS[c].cost <= 1 && KINDS[c].arity >= 1 && KINDS[c].name != "CYCLE" && KINDS[c].name != "STAR" && KINDS[c].name != "JD" {
+          let tb = if rng.chance(1, 2) { base } else { Tup { y: q.args[0].max(1).min(9990), ..base } };
+          q = Query::new(c, args_for(rng, c, tb, other));
+          break;
+        }
+      }
+    }
+    // a thread that got a more expensive kind than the run was sized for loops less
+    let reps: u64 = if KINDS[q.kind].cost > KINDS[k].cost { (reps / 8).max(12) } else { reps };
+    let mut ops: Vec<Op> = Vec::new();
+    if deep || rng.chance(1, 4) {
+      // full-speed alternation between the query and shifted copies of it: every evaluation is
+      // a miss in any "last argument" memo, per thread, per slot or global
+      // each argument twice in a row: the second call is the remembered one (a hit that reads
+      // what a concurrent miss of another thread may be half-way through writing)
+      let mut qs = vec![q.clone(), q.clone()];
+      for _ in 0..rng.range(1, 2) {
+        let mut b = q.args.clone();
+        b[0] += *rng.pick(&[1i64, -1, 8, 32, 256, 60, 7, 100]);
+        if b[0] < 1 || b[0] > 9990 {
+          b[0] = q.args[0];
+        }
+        let q2 = Query::new(q.kind, b);
+        qs.push(q2.clone());
+        qs.push(q2);
+      }
+      ops.push(Op::QAlt { qs, times: reps.max(40) });
+    } else if rng.chance(1, 2) {
+      // one long loop over one query (and once more after the others have been at it)
+      ops.push(Op::QRep { q: q.clone(), times: reps });
+      if rng.chance(1, 2) {
+        ops.push(Op::QRep { q, times: reps / 2 + 1 });
+      }
+    } else {
+      // alternate between the query and a shifted copy of it in short bursts: every switch is a
+      // miss in a "last argument" memo, per thread or per slot
+      let mut b = q.args.clone();
+      b[0] += *rng.pick(&[1i64, -1, 8, 32, 256, 60, 7]);
+      if b[0] < 1 || b[0] > 9990 {
+        b[0] = q.args[0];
+      }
+      let q2 = Query::new(q.kind, b);
+      let bursts = rng.range(4, 10) as u64;
+      for i in 0..bursts {
+        ops.push(Op::QRep { q: if i % 2 == 0 { q.clone() } else { q2.clone() }, times: (reps / bursts).max(3) });
+      }
     }
     threads.push(ops);
   }
